@@ -72,7 +72,13 @@ def fam_in():
 
 
 def fam_marked():
-    return Family("marked-for-op", "and", lambda i: {"type": "marked-for-op", "op": "stop", "tag": f"mk{i}"}, lambda res, i, t: res["Tags"].append(tag(f"mk{i}", "msg:stop@2000-01-01" if t else "msg:other@2000-01-01")))
+    def build(i):
+        f = {"type": "marked-for-op", "op": "stop", "tag": f"mk{i}"}
+        # the optional arguments of the clause (skew, skew_hours, tz) in turn
+        f.update([{}, {"skew": 3}, {"skew_hours": 5}, {"tz": "utc"}, {"skew": 1, "skew_hours": 2, "tz": "America/New_York"}][i % 5])
+        return f
+
+    return Family("marked-for-op", "and", build, lambda res, i, t: res["Tags"].append(tag(f"mk{i}", "msg:stop@2000-01-01" if t else "msg:other@2000-01-01")))
 
 
 def fam_offhour():
